@@ -206,7 +206,8 @@ static void run_case(const std::string &line) {
         if (which == 0) n->SetN2kCANSendFrameBufSize((uint16_t)v);
         else if (which == 1) n->SetN2kCANMsgBufSize((uint8_t)v);
         else if (which == 2) n->SetDeviceCount((uint8_t)v);
-        else n->SetN2kCANReceiveFrameBufSize((uint16_t)v);
+        else if (which == 3) n->SetN2kCANReceiveFrameBufSize((uint16_t)v);
+        else n->SetN2kSource((unsigned char)v, which - 4);      // which = 4 + device index: address setter after initialisation (ignored)
       }
       else if (t[0] == "H" && t.size() >= 3) n->SetHeartbeatIntervalAndOffset((uint32_t)tounum(t[1]), (uint32_t)tounum(t[2]), t.size() > 3 ? atoi(t[3].c_str()) : -1);
       else if (t[0] == "R" && t.size() >= 4) {
